@@ -13,7 +13,7 @@ import (
 // Enumerated directly: creator mode x directory state x reopen mode x RWMode.
 func init() {
 	Registry["C22"] = func(r *Run) {
-		r.Rule = "every (creator index mode, directory state, reopen index mode, RWMode): states = empty directory, freshly opened and closed, written (1 segment), written (3 segments), merged (RAM modes), every process-crash image of a 2-transaction workload (thorough); sparse<->RAM on a directory holding records must return an error and leave every file byte-identical; KeyVal<->Key on KV data must open and give the same observation; on directories without records only 'no panic, and if Open succeeds the contents are empty' is checked"
+		r.Rule = "every (directory name in {plain, [1], -[a-c], *x?, ' sp.', \\b}, creator index mode, directory state, reopen index mode, RWMode): states = empty directory, freshly opened and closed, written (1 segment), written (3 segments), merged (RAM modes), every process-crash image of a 2-transaction workload (thorough); sparse<->RAM on a directory holding records must return an error and leave every file byte-identical; KeyVal<->Key on KV data must open and give the same observation; on directories without records only 'no panic, and if Open succeeds the contents are empty' is checked"
 		r.Assume = []string{"KV data only (list/set/zset are documented for HintKeyValAndRAMIdxMode only)"}
 		queries := kvObs([]string{bKV, "zz"}, []string{"a", "ab", "c", "zz"}, []string{"", "a", "b", "z"}, []string{"", "a"}, false)
 		type dstate struct {
@@ -31,85 +31,94 @@ func init() {
 			{name: "merged", ops: []core.Op{w("a", "x"), w("ab", "y"), w("c", "z"), w("a", "x2"), {Kind: "merge"}}, hasData: true},
 		}
 		n := 0
-		for _, creator := range []int{core.KV, core.K, core.S} {
-			for _, rw := range []int{core.F, core.M} {
-				for _, st := range states {
-					if st.name == "merged" && creator == core.S {
-						continue
-					}
-					for _, reopen := range []int{core.KV, core.K, core.S} {
-						ccfg := core.Cfg{Mode: creator, RW: rw, Start: rw, Seg: 100}
-						rcfg := core.Cfg{Mode: reopen, RW: rw, Start: rw, Seg: 100}
-						in := core.OpenInst(ccfg)
-						var ops []core.Op
-						if st.noOpen {
-							in.CloseOnly()
-							os.RemoveAll(in.Dir)
-							os.MkdirAll(in.Dir, 0755)
-						} else {
-							for _, op := range st.ops {
-								in.Apply(op)
-								ops = append(ops, op)
-							}
+		defer func() { core.DirSuffix = "" }()
+		// the directory NAME is a dimension too: glob metacharacters, a space, a trailing dot
+		for _, suffix := range []string{"", "[1]", "-[a-c]", "*x?", " sp.", "\\b"} {
+			core.DirSuffix = suffix
+			for _, creator := range []int{core.KV, core.K, core.S} {
+				for _, rw := range []int{core.F, core.M} {
+					for _, st := range states {
+						if st.name == "merged" && creator == core.S {
+							continue
 						}
-						var before []core.Res
-						if in.DB != nil {
-							before, _ = in.Observe(queries)
-							in.CloseOnly()
-						}
-						textBefore := core.DirText(in.Dir)
-						n++
-						what := fmt.Sprintf("%s->%s", modeName(creator), modeName(reopen))
-						add := func(kind, detail string) {
-							r.Col.Add(eng.Violation{Prop: "C22", Kind: kind, Cfg: rcfg, Ops: ops, What: what + ":" + st.name, Atoms: []string{what + ":" + st.name},
-								Detail: []string{fmt.Sprintf("directory %q created in %s, reopened in %s", st.name, ccfg, rcfg), detail}, Extra: map[string]interface{}{"profile": "c22"}})
-						}
-						in2 := core.OpenDir(rcfg, in.Dir, in.Model)
-						sparseMix := (creator == core.S) != (reopen == core.S)
-						key := fmt.Sprintf("%s/%s/%s/%d", modeName(creator), st.name, modeName(reopen), rw)
-						r.Stats.States[key] = true
-						r.Stats.Transitions++
-						switch {
-						case in2.Poisoned != "":
-							add("panic", in2.Poisoned)
-						case sparseMix && st.hasData:
-							r.Stats.Nontrivial[key] = true
-							if in2.OpenErr == nil {
-								add("not-refused", "Open returned nil")
-								in2.CloseOnly()
-							} else if after := core.DirText(in.Dir); after != textBefore {
-								add("refused-but-directory-changed", "before:\n"+textBefore+"after:\n"+after)
-							}
-							r.Stats.Outcomes["refused"] = true
-						case !sparseMix && st.hasData:
-							r.Stats.Nontrivial[key] = true
-							if in2.OpenErr != nil {
-								add("compatible-open-failed", in2.OpenErr.Error())
+						for _, reopen := range []int{core.KV, core.K, core.S} {
+							ccfg := core.Cfg{Mode: creator, RW: rw, Start: rw, Seg: 100}
+							rcfg := core.Cfg{Mode: reopen, RW: rw, Start: rw, Seg: 100}
+							in := core.OpenInst(ccfg)
+							var ops []core.Op
+							if st.noOpen {
+								in.CloseOnly()
+								os.RemoveAll(in.Dir)
+								os.MkdirAll(in.Dir, 0755)
 							} else {
-								after, _ := in2.Observe(queries)
-								r.Stats.Evals += len(after)
-								if d := core.DiffObs(queries, before, after); len(d) > 0 {
-									add("contents-differ", d[0].String())
+								for _, op := range st.ops {
+									in.Apply(op)
+									ops = append(ops, op)
 								}
-								in2.CloseOnly()
 							}
-							r.Stats.Outcomes["same-contents"] = true
-						default:
-							// no record in the directory: the statement is silent; if Open succeeds the
-							// contents must be empty
-							if in2.OpenErr == nil {
-								obs, _ := in2.Observe(queries)
-								for i, o := range obs {
-									if !o.Err && o.Val != "[]" {
-										add("phantom-contents", queries[i].String()+" returned "+o.String())
-										break
+							var before []core.Res
+							if in.DB != nil {
+								before, _ = in.Observe(queries)
+								in.CloseOnly()
+							}
+							textBefore := core.DirText(in.Dir)
+							n++
+							what := fmt.Sprintf("%s->%s", modeName(creator), modeName(reopen))
+							add := func(kind, detail string) {
+								var tags []string
+								if suffix != "" {
+									tags = []string{"dirname"}
+								}
+								r.Col.Add(eng.Violation{Prop: "C22", Kind: kind, Cfg: rcfg, Ops: ops, What: what + ":" + st.name, Atoms: []string{what + ":" + st.name}, Tags: tags,
+									Detail: []string{fmt.Sprintf("directory %q (name suffix %q) created in %s, reopened in %s", st.name, suffix, ccfg, rcfg), detail}, Extra: map[string]interface{}{"profile": "c22", "dir_suffix": suffix}})
+							}
+							in2 := core.OpenDir(rcfg, in.Dir, in.Model)
+							sparseMix := (creator == core.S) != (reopen == core.S)
+							key := fmt.Sprintf("%s/%s/%s/%d/%s", modeName(creator), st.name, modeName(reopen), rw, suffix)
+							r.Stats.States[key] = true
+							r.Stats.Transitions++
+							switch {
+							case in2.Poisoned != "":
+								add("panic", in2.Poisoned)
+							case sparseMix && st.hasData:
+								r.Stats.Nontrivial[key] = true
+								if in2.OpenErr == nil {
+									add("not-refused", "Open returned nil")
+									in2.CloseOnly()
+								} else if after := core.DirText(in.Dir); after != textBefore {
+									add("refused-but-directory-changed", "before:\n"+textBefore+"after:\n"+after)
+								}
+								r.Stats.Outcomes["refused"] = true
+							case !sparseMix && st.hasData:
+								r.Stats.Nontrivial[key] = true
+								if in2.OpenErr != nil {
+									add("compatible-open-failed", in2.OpenErr.Error())
+								} else {
+									after, _ := in2.Observe(queries)
+									r.Stats.Evals += len(after)
+									if d := core.DiffObs(queries, before, after); len(d) > 0 {
+										add("contents-differ", d[0].String())
 									}
+									in2.CloseOnly()
 								}
-								in2.CloseOnly()
+								r.Stats.Outcomes["same-contents"] = true
+							default:
+								// no record in the directory: the statement is silent; if Open succeeds the
+								// contents must be empty
+								if in2.OpenErr == nil {
+									obs, _ := in2.Observe(queries)
+									for i, o := range obs {
+										if !o.Err && o.Val != "[]" {
+											add("phantom-contents", queries[i].String()+" returned "+o.String())
+											break
+										}
+									}
+									in2.CloseOnly()
+								}
+								r.Stats.Outcomes["no-data"] = true
 							}
-							r.Stats.Outcomes["no-data"] = true
+							os.RemoveAll(in.Dir)
 						}
-						os.RemoveAll(in.Dir)
 					}
 				}
 			}
